@@ -336,10 +336,19 @@ fn visit_tcp(
         _ => None,
     };
 
+    // Total header size in bytes (IP header + TCP header with options), as the window
+    // classifier expects; `ip_package_header_length` is in 32-bit words for IPv4.
+    let ip_header_bytes: u16 = match version {
+        IpVersion::V4 => (ip_package_header_length as u16).saturating_mul(4),
+        _ => ip_package_header_length as u16,
+    };
+    let total_header_bytes: u16 =
+        ip_header_bytes.saturating_add((tcp.get_data_offset() as u16).saturating_mul(4));
+
     let wsize: WindowSize = detect_win_multiplicator(
         tcp.get_window(),
         mss.unwrap_or(0),
-        ip_package_header_length as u16,
+        total_header_bytes,
         olayout.contains(&TcpOption::TS),
         &version,
     );
